@@ -14,7 +14,7 @@ META = {
     "level": "exploration",
     "rule": ("case = extension descriptor (JSON) or a bundled std file or a helper; distinct by JSON; "
              "non-trivial when the extension has >= 1 TypeDef and >= 1 OpDef"),
-    "required": ["monitor:ext-roundtrip", "monitor:ext-vs-descriptor", "monitor:owner-invariant",
+    "required": ["monitor:ext-roundtrip", "monitor:ext-vs-descriptor", "monitor:owner-invariant", "monitor:owner-invariant-after-takeover",
                  "monitor:std-byte-equality", "monitor:std-loads", "monitor:helper-denotation",
                  "feature:binary-op", "feature:poly-op", "feature:from-params-typedef", "feature:value"],
     "reach": ["hugr.ext:Extension._to_serial", "hugr.ext:Extension.from_json", "hugr.ext:Extension.add_op_def",
@@ -146,6 +146,35 @@ def check_ext(ctx, e, stratum="extension"):
         for name, td in holder.types.items():
             if td.get_extension() is not holder:
                 bad("typedef-owner", name, "the holding extension", "other")
+    # ---- the same invariant for an extension that takes over operation definitions which already belonged to
+    # another one ("Returns: the added operation definition, now associated with the extension"); x is not used
+    # after this
+    if x.operations:
+        from hugr import ext as _ext
+
+        ctx.count("monitor:owner-invariant-after-takeover")
+        z = _ext.Extension(e["name"] + ".next", _ext.Version(9, 9, 9))
+        for od in list(x.operations.values()):
+            ret = z.add_op_def(od)
+            if ret is not z.operations.get(od.name):
+                bad("takeover-returned-def", od.name, "the definition now held", repr(ret))
+        for name, od in z.operations.items():
+            try:
+                owner = od.get_extension()
+            except Exception as ex:  # noqa: BLE001
+                owner = ex
+            if owner is not z:
+                bad("opdef-owner-after-takeover", name, "the extension it was added to", getattr(owner, "name", repr(owner)))
+            pf = od.signature.poly_func
+            if pf is not None and z.name not in pf.body.runtime_reqs:
+                bad("opdef-requires-owner-after-takeover", name, f"{z.name} in runtime_reqs", list(pf.body.runtime_reqs))
+        dz = json.loads(z.to_json())
+        for name, j in dz["operations"].items():
+            if j["extension"] != z.name:
+                bad("opdef-document-extension-after-takeover", name, z.name, j["extension"])
+        dz2 = json.loads(_ext.Extension.from_json(z.to_json()).to_json())
+        if sort_reqs(dz2) != sort_reqs(dz):
+            bad("takeover-roundtrip-document", "to_json(from_json(to_json(z)))", "same document", "differs")
 
 
 def std_files():
